@@ -153,6 +153,7 @@ def best_rigid_fit(P, Q):
 
 
 # ------------------------------------------------------------------------------------------------ stress generators
+CELLS['upper'] = np.array([[19., 4.0, 0], [0, 20., 3.0], [0, 0, 22.]])                              # triclinic, tilt ABOVE the diagonal (not LAMMPS-oriented)
 CELLS['rhombo'] = np.array([[20., 0, 0], [10., 17.3205, 0], [10., 5.7735, 16.3299]])          # 60 degree angles
 CELLS['rhombo-'] = np.array([[20., 0, 0], [-8., 18.0, 0], [-7., -6.0, 17.0]])                  # all tilts negative
 # cells only a little wider than a long pattern (the pattern spans more than half a cell edge); used with a single copy
@@ -234,7 +235,7 @@ def build_through_faces(cellname, patname, rnd, depth=0.05, decoys=2, spin=True,
     return dict(structure=s, pattern=pat, planted=planted, poses=poses, cell=cell, diam=dmax, cellname=cellname, patname=patname)
 
 
-def build_axis_poses(cellname, patname, rnd, which):
+def build_axis_poses(cellname, patname, rnd, which, stretch=0.0):
     """Copies in axis-aligned poses (a third of the 24 proper axis rotations per structure), incl. exactly antiparallel ones."""
     from mofun import Atoms
     cell = CELLS[cellname]
@@ -243,9 +244,17 @@ def build_axis_poses(cellname, patname, rnd, which):
     rots = AXIS_ROTS[which::3]
     grid = [(i / 3.0 + 0.1, j / 3.0 + 0.12, k / 3.0 + 0.08) for i in range(3) for j in range(3) for k in range(3)]
     elements, positions, planted, poses = [], [], [], []
+    placed = coords
+    if stretch:
+        # the copies are the pattern stretched along the direction from its first atom to the atom farthest from it, so that the far atom is
+        # `stretch` further away (well inside the tolerance when stretch ~ atol / 2): still occurrences, but the longest distance is exceeded
+        far = max(range(len(coords)), key=lambda i: np.linalg.norm(coords[i] - coords[0]))
+        d = np.linalg.norm(coords[far] - coords[0])
+        u = (coords[far] - coords[0]) / d
+        placed = coords + np.outer((coords - coords[0]).dot(u) * (stretch / d), u)
     for ci, rot in enumerate(rots):
         centre = np.array(grid[ci]).dot(cell)
-        pts = rot.apply(coords - coords.mean(axis=0)) + centre
+        pts = rot.apply(placed - placed.mean(axis=0)) + centre
         idxs = []
         for e, p in zip(els, pts):
             idxs.append(len(elements))
